@@ -4,6 +4,7 @@ import KoordVerif.Proofs.C05ExtPod
 import KoordVerif.Proofs.C05ExtPipe
 import KoordVerif.Proofs.C05ExtProf
 import KoordVerif.Proofs.C05ExtProf2
+import KoordVerif.Proofs.C05ExtUnr
 /-
 C05 — reservations are never over-allocated and only serve their owners.
 
@@ -555,5 +556,84 @@ theorem lagging_listener_counterexample :
     (inOrder.infos.map (·.uid), inOrder.onNode) = ([], []) ∧
     ¬ ((lagged.infos.map (·.uid), lagged.onNode) = ([], [])) ∧
     (lagged.infos.map (fun r => (r.uid, r.phase)), lagged.onNode, lagged.matchable) = ([(1, 4)], [(2, 1)], []) := by decide
+
+/-! ## 8. roll-back of a cycle: Unreserve of a normal pod (any stage) and of a reserve pod -/
+
+/-- Reserve -> [PreBind] -> Unreserve of a NORMAL pod that no reservation held before, rolled back right after
+    Reserve (`hasAlloc = false`: Permit reject / timeout, a later Reserve or PreBind plugin failed) or after PreBind
+    (`hasAlloc = true`: Bind failed): every ledger is exact, NO reservation holds the pod any more, and every
+    reservation entry (Allocated, AssignedPods, ...) is exactly what it was before Reserve, so the amount is free
+    again for the next owner.  (Unreserve after a FAILED Reserve: nothing assumed, nothing changes.) -/
+theorem unreserve_forgets_assumed_pod (c : Cache) (x : CycIn) (u : Nat) (hasAlloc : Bool)
+    (hl : LedgerInv c) (hp : PodPre x.pod) (hfresh : ∀ r ∈ c.infos, hasPod r.assigned x.pod.uid = false) :
+    let c2 := unreservePodM (reserveM c x u).1 (if (reserveM c x u).2 == 0 then u else 0) hasAlloc x.pod.uid
+    LedgerInv c2 ∧ (∀ r ∈ c2.infos, hasPod r.assigned x.pod.uid = false) ∧ ∀ v, findInfo c2 v = findInfo c v :=
+  ⟨(unreserve_forgets c x u hasAlloc hl hp hfresh).1, (unreserve_forgets c x u hasAlloc hl hp hfresh).2,
+   unreserve_restores c x u hasAlloc hl hp hfresh⟩
+
+/-- PreBind sets `hasReservationAllocated` exactly when a reservation was assumed and annotates the pod with it -/
+theorem prebind_marks_assumed (assumed : Nat) (hasAff : Bool) :
+    (preBindM assumed hasAff).2.2 = (assumed != 0) ∧ (preBindM assumed hasAff).2.1 = assumed := by
+  unfold preBindM; by_cases h : assumed = 0 <;> simp [h]
+
+/-- why forgetPods must come before the `!hasReservationAllocated` return (seeded change, round 4): with the return
+    hoisted above it (`unreserveG true`) a pod rolled back before PreBind stays assigned for good: reservation 1
+    (4000 of everything, Restricted) reports 3000 allocated with no live pod and rejects a 2000 owner that the
+    code as written lets in -/
+def uxObj : RObj := { pxObj with once := false, policy := 2 }
+def uxCyc : CycIn := { pxCyc false with pod := { uid := 11, empty := false, req := fun _ => 3000 }, unreserve := true }
+def uxBase : Cache := onAdd Cache.empty uxObj
+
+theorem unreserve_hoisted_guard_leaks_counterexample :
+    Nominated uxBase uxCyc 1 ∧ (reserveM uxBase uxCyc 1).2 = 0 ∧
+    ((unreserveG true (reserveM uxBase uxCyc 1).1 1 false 11).infos.map
+        (fun r => (r.allocated 0, r.assigned.map (·.uid), fitOK (fitsReservation r (fun _ => 2000) vzero 0))))
+      = [(3000, [11], false)] ∧
+    ((unreservePodM (reserveM uxBase uxCyc 1).1 1 false 11).infos.map
+        (fun r => (r.allocated 0, r.assigned.map (·.uid), fitOK (fitsReservation r (fun _ => 2000) vzero 0))))
+      = [(0, [], true)] := by decide
+
+/-- Reserve of a RESERVE pod (the reservation's own cycle; the object `o` in the lister is still unscheduled) on
+    node `n`, then Unreserve while the lister still has the object or has lost it (`listed'`): the entry is gone, NO
+    per-node index mentions the reservation under ANY node, and the index invariant holds - so the reservation can
+    afterwards be scheduled to another node and deleted there without leaving anything behind (index_inv_step).
+    `NodeStable c o.uid n` holds trivially when the reservation is not cached, which is the case for an unscheduled
+    reservation (the harness generates exactly that). -/
+theorem unreserve_reserve_pod_clears_index (c : Cache) (o : RObj) (listed' : Option RObj) (n : Nat)
+    (h : IndexInv c) (hn : n ≠ 0) (hst : NodeStable c o.uid n) (hl : ∀ o', listed' = some o' → o'.uid = o.uid) :
+    let c2 := unreserveRsvM (reserveRsvM c (some o) n).1 listed' o.uid n
+    IndexInv c2 ∧ findInfo c2 o.uid = none ∧
+    ∀ m, (m, o.uid) ∉ c2.onNode ∧ (m, o.uid) ∉ c2.matchable ∧ (m, o.uid) ∉ c2.allocIdx :=
+  unreserve_rsv_clears c o listed' n h hn hst hl
+
+/-- Reserve of a reserve pod assumes the reservation under the node it was reserved on -/
+theorem reserve_reserve_pod_lists (c : Cache) (o : RObj) (n : Nat) (hn : n ≠ 0) :
+    (reserveRsvM c (some o) n).2 = 0 ∧ (n, o.uid) ∈ (reserveRsvM c (some o) n).1.onNode ∧
+    (findInfo (reserveRsvM c (some o) n).1 o.uid).isSome = true :=
+  ⟨rfl, (updateReservation_lists c { o with node := n } hn).1, (updateReservation_lists c { o with node := n } hn).2⟩
+
+/-- Reserve failed on a lister miss; the framework still calls Unreserve (stub keyed by pod uid and node): harmless -/
+theorem unreserve_reserve_pod_lister_miss (c : Cache) (u n : Nat) (h : IndexInv c) (hst : NodeStable c u n) :
+    (reserveRsvM c none n) = (c, 3) ∧ IndexInv (unreserveRsvM (reserveRsvM c none n).1 none u n) :=
+  ⟨rfl, unreserve_rsv_lister_miss c u n h hst⟩
+
+/-- why the copy of the lister's object must be stamped with the node (seeded change, round 4): without the stamp
+    (`unreserveRsvG false`) DeleteReservation cleans under node "" and reservationsOnNode[n1] keeps uid 5 although the
+    entry is gone; after the reservation is scheduled to n2 and deleted there, (n1, 5) is still listed -/
+def rxObj : RObj := { pxObj with uid := 5, node := 0, phase := 0 }
+
+theorem unreserve_unstamped_leaves_index_counterexample :
+    let bad := unreserveRsvG false (reserveRsvM Cache.empty (some rxObj) 1).1 (some rxObj) 5 1
+    let later := deleteReservation (onUpdate bad { rxObj with node := 2, phase := 1 }) 5 2
+    (findInfo bad 5).isNone = true ∧ bad.onNode = [(1, 5)] ∧
+    (findInfo later 5).isNone = true ∧ later.onNode = [(1, 5)] ∧
+    (unreserveRsvM (reserveRsvM Cache.empty (some rxObj) 1).1 (some rxObj) 5 1).onNode = [] := by decide
+
+example : LedgerInv uxBase ∧ PodPre uxCyc.pod ∧ ∀ r ∈ uxBase.infos, hasPod r.assigned uxCyc.pod.uid = false := by
+  refine ⟨?_, ⟨fun d => ?_, fun h => absurd h (by decide)⟩, by decide⟩
+  · exact ledger_step Cache.empty (.eadd uxObj) (by intro r hr; cases hr) (by simp [LedgerPre])
+  · show (0 : Int) ≤ 3000
+    decide
+example : IndexInv Cache.empty ∧ NodeStable Cache.empty rxObj.uid 1 := ⟨index_empty, by decide⟩
 
 end KoordVerif.C05
